@@ -243,6 +243,7 @@ func r11sibX(c *core.Ctx) {
 	}
 	d := func(f string, i int) core.BitVec { return digit(fmt.Sprintf("chr(p0.%s[%d])", f, i))[:8] }
 	seen := map[bool]bool{}
+	wholeAtoi := false
 	oks := map[string]bool{"octet0": true, "octet1": true, "octet2": true, "guard": true, "length": true}
 	bad := map[string]string{}
 	for _, o := range outs {
@@ -284,11 +285,22 @@ func r11sibX(c *core.Ctx) {
 		}
 		for i := 0; i < 3; i++ {
 			if !core.SameVec(cell(i), want[i]) {
+				if d := cell(i).Describe(); strings.Contains(d, "atoi(p0.Mcc)") || strings.Contains(d, "atoi(p0.Mnc)") {
+					// digits taken arithmetically from the number the whole string converts to: equal to the
+					// per-character digits only for decimal strings of the expected length, which this rule does
+					// not establish - not decided (a layout choice by the numeric value instead of the length of
+					// the MNC is wrong for MNCs with a leading zero, but that is beyond this comparison)
+					wholeAtoi = true
+				}
 				k := fmt.Sprintf("octet%d", i)
 				oks[k] = false
 				bad[k] = fmt.Sprintf("%d-digit MNC: octet %d is %s, want %s", map[bool]int{true: 3, false: 2}[three], i, cell(i).Describe(), want[i].Describe())
 			}
 		}
+	}
+	if wholeAtoi {
+		c.SoftUndecided("%s: PlmnIDToNas takes the digits arithmetically from the converted MCC/MNC numbers; digit placement is not decided in that form", R)
+		return
 	}
 	if !seen[true] || !seen[false] {
 		oks["guard"] = false
